@@ -101,6 +101,7 @@ type c10Env struct {
 	def   interface{}
 
 	lastAnnounced bool // set by applyEvents: a create event arrived while the client did not hold the resource
+	nmut          int  // mutation transactions so far: every third reads the value first, every third also edits what it read in place
 	// fault injection "a commit that fails" (badgerstore only)
 	canConflict      bool
 	conflictFor      string
@@ -309,9 +310,41 @@ func (e *c10Env) mutate(storeID string, before, after interface{}) error {
 	return e.guarded(func() error { return e.mutate0(storeID, before, after) })
 }
 
+// readFirst is the usual shape of an application's write: read the value inside the
+// transaction, then write. Every third transaction reads first, every third edits the
+// value it read in place and hands that same value back to Update. What the transaction
+// read does not change what the store reports as the value before each mutation.
+func (e *c10Env) readFirst(wt store.WriteTxn, after interface{}) interface{} {
+	e.nmut++
+	if e.nmut%3 == 0 {
+		return after
+	}
+	v, err := wt.Value()
+	e.c.Obs("write_txns_reading_first", 1)
+	// (mockstore hands out the stored value itself, so only a store that decodes a fresh
+	// value per read is edited in place)
+	if err != nil || e.nmut%3 != 2 || e.cfg.Store != "badger" {
+		return after
+	}
+	m, ok := v.(map[string]interface{})
+	am, ok2 := after.(map[string]interface{})
+	if !ok || !ok2 {
+		return after
+	}
+	for k := range m {
+		delete(m, k)
+	}
+	for k, x := range am {
+		m[k] = x
+	}
+	e.c.Obs("write_txns_editing_the_read_value_in_place", 1)
+	return m
+}
+
 func (e *c10Env) mutate0(storeID string, before, after interface{}) error {
 	wt := e.st.Write(storeID)
 	defer wt.Close()
+	after = e.readFirst(wt, after)
 	switch {
 	case before == nil && after == nil:
 		return nil
@@ -332,8 +365,11 @@ func (e *c10Env) mutateMany(storeID string, before interface{}, afters []interfa
 func (e *c10Env) mutateMany0(storeID string, before interface{}, afters []interface{}) error {
 	wt := e.st.Write(storeID)
 	defer wt.Close()
-	for _, after := range afters {
+	for i, after := range afters {
 		var err error
+		if i == 0 {
+			after = e.readFirst(wt, after)
+		}
 		switch {
 		case before == nil && after == nil:
 		case before == nil:
